@@ -7,6 +7,7 @@ import asyncio
 import json
 import os
 import random
+import re
 import struct
 
 from harness import bgpmsg, tlc
@@ -110,9 +111,14 @@ async def direct(world, steps) -> None:
 
 def normalise(events, tid: int, hold_ms: int) -> list[dict]:
     out = [dict(FIELDS, tid=tid, e='Begin', hold=hold_ms)]
+    cur = None
     for ev in events:
         if ev['e'] in ('remote', 'harness', 'reactor', 'rib') or (ev['e'] == 'got' and ev.get('kind') == 'lost'):
             continue
+        if ev['e'] == 'conn' and ev.get('what') in ('outgoing', 'incoming-accepted'):
+            cur = ev.get('c')
+        if ev['e'] == 'close' and cur is not None and ev.get('c') not in (None, cur):
+            continue  # a refused inbound connection being closed: not the session's transport
         d = dict(FIELDS)
         for k in FIELDS:
             if k in ev and ev[k] is not None:
@@ -331,3 +337,134 @@ def model_check(ck: Check, tier: str) -> None:
     ck.tlc(res, 'MC_ExaSession: closed model of the peer loop and its environment')
     if not res.ok:
         raise tlc.TLCError(f'MC_ExaSession: {res.violated_invariant}: ' + res.out[-1500:])
+
+
+# ------------------------------------------------------------------------------------------------------------
+# the closed model of the Peer coroutine (spec/ExaPeerLoop.tla): model checking, broken variants, scripts for the real Peer
+
+PL_VARIANTS = {
+    'C05': ['EstablishEarly'],
+    'C10': ['AnswerNotification', 'StarveAccepted'],
+    'C12': ['NoHoldTimer'],
+}
+
+
+def _pl_cfg(budget: int, edge: bool, variant: str | None = None, ticks: str | None = None) -> str:
+    cfg = open(os.path.join(tlc.SPEC, 'MC_ExaPeerLoop.cfg')).read()
+    cfg = re.sub(r'Budget = \d+', f'Budget = {budget}', cfg)
+    cfg = cfg.replace('EdgeCover = FALSE', f'EdgeCover = {"TRUE" if edge else "FALSE"}')
+    if ticks:
+        cfg = re.sub(r'Ticks = \{[^}]*\}', f'Ticks = {ticks}', cfg)
+    if variant:
+        assert f'{variant} = FALSE' in cfg
+        cfg = cfg.replace(f'{variant} = FALSE', f'{variant} = TRUE')
+    return cfg
+
+
+def peerloop_model_check(ck: Check, tier: str) -> None:
+    """(M) NoViolation and the structural invariants on every behaviour of the closed model; the variants that re-introduce
+    a defect of this property must be rejected by TLC (otherwise the invariant is vacuous: machinery failure)."""
+    budget = 2 if tier == 'quick' else 3
+    d = tlc.workdir(f'pl-mc-{ck.prop}')
+    path = os.path.join(d, 'mc.cfg')
+    open(path, 'w').write(_pl_cfg(budget, False))
+    res = tlc.run('ExaPeerLoop', path, f'pl-mc-run-{ck.prop}', workers=16, args=['-coverage', '1'], timeout=3000)
+    ck.tlc(res, f'ExaPeerLoop: closed model of the Peer coroutine and its environment, budget {budget} + free handshake and timer ticks')
+    if not res.ok:
+        raise tlc.TLCError(f'ExaPeerLoop: {res.violated_invariant}: ' + res.out[-2500:])
+    never = [a for a in ('SActive', 'SROpen', 'SOWait', 'SRKa', 'SMRead', 'SHold', 'SKa', 'STear', 'SNotify', 'SFClose', 'EIncoming', 'EConnectFail', 'ETick') if res.coverage.get(a, 0) == 0]
+    if never:
+        raise tlc.TLCError(f'ExaPeerLoop: actions never taken (vacuous model): {never}')
+    for variant in PL_VARIANTS[ck.prop]:
+        open(path, 'w').write(_pl_cfg(budget if variant != 'NoHoldTimer' else 2, False, variant))
+        bad = tlc.run('ExaPeerLoop', path, f'pl-mc-{variant}-{ck.prop}', workers=16, timeout=3000)
+        ck.tlc(bad, f'ExaPeerLoop with {variant} = TRUE (must be rejected)')
+        if bad.violated_invariant != 'NoViolation':
+            raise tlc.TLCError(f'ExaPeerLoop variant {variant} was not rejected: the invariant NoViolation is vacuous for it')
+        ck.notes.append(f'ExaPeerLoop variant {variant}: rejected by TLC (NoViolation) as required')
+    tlc.cleanup(f'pl-mc-{ck.prop}')
+
+
+def script_to_steps(script: list, coalesce: bool) -> list:
+    """Environment script of ExaPeerLoop -> steps of direct().  A `refuse` is registered before the ticks that precede it
+    (it only concerns the next connection attempt, which those ticks wait for)."""
+    ev = [dict(e) for e in script]
+    i = 0
+    while i < len(ev):
+        if ev[i]['do'] == 'refuse':
+            j = i
+            while j > 0 and ev[j - 1]['do'] == 'tick':
+                j -= 1
+            ev.insert(j, ev.pop(i))
+        i += 1
+    steps = []
+    if not ev or ev[0]['do'] != 'refuse':
+        steps.append({'do': 'sleep', 'ms': 5})
+    for k, e in enumerate(ev):
+        do = e['do']
+        if do == 'send':
+            if e['cls'] == 'EOF':
+                steps.append({'do': 'close'})
+            elif TYPE_OPEN(e['cls']):
+                steps.append({'do': 'send', 'cls': e['cls'], 'hold': e['hold'] // 1000})
+            else:
+                steps.append({'do': 'send', 'cls': e['cls']})
+        elif do == 'tick':
+            steps.append({'do': 'sleep', 'ms': e['ms']})
+            continue
+        elif do == 'teardown':
+            steps.append({'do': 'teardown', 'code': e['code']})
+        elif do == 'incoming':
+            steps.append({'do': 'incoming'})
+        elif do == 'refuse':
+            steps.append({'do': 'refuse', 'n': 1})
+        nxt = ev[k + 1]['do'] if k + 1 < len(ev) else ''
+        if not (coalesce and do == 'send' and nxt == 'send'):
+            steps.append({'do': 'sleep', 'ms': 5})      # let the real system run to its next waiting point
+    steps.append({'do': 'sleep', 'ms': 1500})
+    return steps
+
+
+def TYPE_OPEN(cls: str) -> bool:
+    return cls.startswith('OPEN')
+
+
+def _pl_enumerate(ck: Check, budget: int, ticks: str | None, label: str) -> list:
+    cfg = _pl_cfg(budget, True, ticks=ticks)
+    res, vals = tlc.dump_var('ExaPeerLoop', 'gen.cfg', f'pl-gen-{ck.prop}-{budget}', 'script', cfg_text=cfg, timeout=3000)
+    ck.tlc(res, f'ExaPeerLoop script enumeration (one per model state and last environment action), budget {budget} {label}')
+    if not res.ok:
+        raise tlc.TLCError('ExaPeerLoop enumeration failed: ' + res.out[-1500:])
+    scripts = {tuple((e['do'], e['cls'], e['hold'], e['ms'], e['code']) for e in v) for v in vals}
+    prefixes = {s[:i] for s in scripts for i in range(len(s))}
+    maximal = sorted(s for s in scripts if s not in prefixes)
+    ck.notes.append(f'ExaPeerLoop budget {budget}: {res.distinct} model states, {len(scripts)} distinct environment scripts, {len(maximal)} maximal')
+    return maximal
+
+
+def peerloop_scripts(ck: Check, tier: str, seed: int) -> list:
+    """(G) environment scripts generated by TLC from the closed model: one per distinct model state and last environment
+    action, maximal ones only.  quick: every script of budget 1 (one counted environment action on top of the free
+    handshake and timer ticks) + a seeded sample of budget 2; thorough: every script of budget 2 + a seeded sample of budget 3."""
+    rnd = random.Random(seed)
+    if tier == 'quick':
+        chosen = _pl_enumerate(ck, 1, None, 'all ticks')
+        more = _pl_enumerate(ck, 2, '{150, 3100, 61000}', 'ticks 150/3100/61000')
+        chosen += rnd.sample(more, min(len(more), 800))
+    else:
+        chosen = _pl_enumerate(ck, 2, None, 'all ticks')
+        more = _pl_enumerate(ck, 3, '{150, 3100, 61000}', 'ticks 150/3100/61000')
+        chosen += rnd.sample(more, min(len(more), 20000))
+    out = []
+    for n, s in enumerate(chosen):
+        script = [dict(zip(('do', 'cls', 'hold', 'ms', 'code'), e)) for e in s]
+        horizon = sum(e['ms'] for e in script) + 20_000
+        compact = ';'.join(
+            (e['cls'] + (f"/{e['hold'] // 1000}" if TYPE_OPEN(e['cls']) else '')) if e['do'] == 'send'
+            else f"tick{e['ms']}" if e['do'] == 'tick' else f"teardown{e['code']}" if e['do'] == 'teardown' else e['do']
+            for e in script
+        )
+        out.append((f'model:{compact}', script_to_steps(script, False), {'horizon_ms': horizon}))
+        if any(a['do'] == 'send' and b['do'] == 'send' for a, b in zip(script, script[1:])):
+            out.append((f'model:{compact}/coalesced', script_to_steps(script, True), {'horizon_ms': horizon}))
+    return out
